@@ -275,7 +275,7 @@ def importName (st : St) (id : Str) (as : Option Str) (ty : ImportTy) : Str :=
     | .path pkg ver segs => pathString pkg ver segs
     | .ident x =>
       match alGet x st.env with
-      | some v => (match v.kind with | .inst (some p) _ => p | _ => id)
+      | some v => v.kind.importNameOr id
       | none => id
     | _ => id
 
@@ -288,7 +288,7 @@ def inferredExportName (v : Val) : Option Str :=
 /-- an export may not take a name that denotes a type declared in the document -/
 def conflictsWithDeclaration (st : St) (name : Str) : Bool :=
   match alGet name st.env with
-  | some v => (match v.prov with | .defn _ => true | _ => false)
+  | some v => v.prov.isDefn
   | none => false
 
 def addExport (st : St) (name : Str) (v : Val) : Except Diag St :=
